@@ -65,6 +65,31 @@ def body(run):
     failing, nt = run.corr('compare', 'Corr.CheckC11', cases, shard=80)
     for k in failing[:5]:
         run.add_break('correspondence-break', 'RasterCompare.process differs from Stats.Compare on the jointly valid pixels', metas[k])
+    # the statistics are those of the image pair, "for every image pair" - also when the object was used before: a call that failed half way
+    # (a read error on some block), then the same call again on the same object; and two complete calls in a row
+    import random as _random
+    from harness import impl_conc as ic
+    for k in range(run.scale(3, 12)):
+        pair = st.make_compare_pair(run.work, rng, ['same', 'avg2'][k % 2], nbands=rng.choice([1, 2]))
+        nb = pair['src'].shape[0]
+        sel = list(range(1, nb + 1))
+        mbm, nblk = fz.pick_block_mem(pair['src_fn'], pair['ref_fn'], 'auto', 6, (1, 1))
+        fresh = st.compare_case(pair, mbm, 1, sel, sel)['stats']
+        from homonim import RasterCompare
+        with RasterCompare(pair['src_fn'], pair['ref_fn'], src_bands=sel, ref_bands=sel, force=True) as rc:
+            twice = [rc.process(threads=2, max_block_mem=mbm), rc.process(threads=2, max_block_mem=mbm)][1]
+        r = ic.run_compare(pair['src_fn'], pair['ref_fn'], rng=_random.Random(k), threads=2, fault=dict(role=['src', 'ref'][k % 2], op='*', k=max(1, nblk // 2)),
+                           max_block_mem=mbm, timeout=60, reuse=True) if nb == 1 else None
+        run.count_case(('reuse', k), True, None)
+        desc = dict(geom=pair['geom'].describe(), bands=nb, max_block_mem=mbm, blocks=nblk)
+        d = same_stats(twice, fresh, 1e-9)
+        if d:
+            run.add_violation('comparison statistics depend on an earlier call on the same object: ' + d, desc, signature=dict(kind='compare-history', after='complete call'))
+        if r is not None and r['rec'].fault_fired and r['reuse'] == 'ok':
+            d = same_stats(r['reuse_stats'], fresh, 1e-9)
+            if d:
+                run.add_violation('comparison statistics depend on an earlier call on the same object: ' + d, dict(desc, failed_call_first=True),
+                                  signature=dict(kind='compare-history', after='failed call'))
     # general geometries: block invariance on the recommended (auto) grid; the forced finer grid is known finding D8
     for k in range(run.scale(8, 100)):
         g = synth.random_geom(rng, max_src=36)
